@@ -2,5 +2,24 @@
 package props
 
 import (
+	_ "verif/harness/props/c01"
+	_ "verif/harness/props/c02"
+	_ "verif/harness/props/c03"
+	_ "verif/harness/props/c04"
+	_ "verif/harness/props/c05"
+	_ "verif/harness/props/c06"
+	_ "verif/harness/props/c07"
+	_ "verif/harness/props/c08"
+	_ "verif/harness/props/c09"
+	_ "verif/harness/props/c10"
+	_ "verif/harness/props/c11"
+	_ "verif/harness/props/c12"
 	_ "verif/harness/props/c13"
+	_ "verif/harness/props/c14"
+	_ "verif/harness/props/c15"
+	_ "verif/harness/props/c16"
+	_ "verif/harness/props/c17"
+	_ "verif/harness/props/c18"
+	_ "verif/harness/props/c19"
+	_ "verif/harness/props/c20"
 )
